@@ -185,7 +185,7 @@ EXTRA = {
  "C10": " C10_code_spline_modifier / _spline_order: the glue of the spline() modifier regenerated from the source takes the start potential from the first part, the end potential from the third, "
         "detach and attach points from the second and third parts' starts, refuses everything else, and remembers nothing between calls.",
  "C09": " C09_code_modifier_reduce/_sum_product_pow/_sum_value/_product_value: the reducing modifiers of _modifiers.py, regenerated from the source, fold plus/product/pow from the "
-        "left over the callables of all their arguments; C09_code_register_with_each_other/_every_form_sees_every_other: the registry registers every form with every other, both ways.",
+        "left over the callables of all their arguments; C09_code_register_with_each_other/_every_form_sees_every_other: the registry registers every form with every other, both ways. C09_code_trans_modifier/_trans_value: trans() returns its first argument, as written, at r + X.",
  "C07": " C07_pow_d1_zero_base/_d2_zero_base: the guards of pow.deriv / pow.deriv2 (vanishing base, constant whole exponent), regenerated from the source, return the derivatives.",
 }
 
